@@ -97,6 +97,7 @@ def run(rep, thorough):
             out = rep.counterexample(key, what[:500], {'witness': w, 'replay': rp}, rp['reproduced'])
             rep.obligation(out == 'known')
     print_parse_probes(rep)
+    n += csv_print_parse(rep)
     rep.solver(time.time() - t0, n)
     rep.cov['functions_encoded'] = list(rep.cov.get('functions_encoded', [])) + ['Interval::{years, months, days, hours, minutes, seconds} and the derived PartialEq (from MIR)']
     rep.cov['trusted_base'] = list(rep.cov.get('trusted_base', [])) + [
@@ -179,3 +180,44 @@ def replay(w):
     eq = cnt[0]['rows'] == [['1']]
     how['equal_after_reparse'] = eq
     return {'reproduced': not eq, 'how': how}
+
+
+def csv_print_parse(rep):
+    """"Printing a value and parsing it back (as CSV import does) returns an equal value": the export's cell -> field
+    function composed with `ArrayBuilderImpl::push_str`, both from MIR (the obligation of mirsmt/c20.py), for BOOLEAN,
+    SMALLINT, INT, BIGINT and VARCHAR cells, decided separately for NULL, the empty string and any other value."""
+    from . import c20
+    n = 0
+    try:
+        path = engine.program(True).path
+    except Inconclusive as ex:
+        rep.fail_inconclusive('csv print/parse: %s' % ex)
+        return 0
+    for variant in c20.TYPES:
+        try:
+            r = c20.run_type(variant, path)
+        except (Unsupported, MirSyntax, KeyError, Inconclusive, AttributeError, IndexError) as ex:
+            rep.fail_inconclusive('csv print/parse of %s: %s: %s' % (variant, type(ex).__name__, str(ex)[:300]))
+            continue
+        rep.cov['programs'] += 1
+        for o in r['obligations']:
+            n += 1
+            desc = 'parse(print(v)) = v through the CSV field of a %s cell' % variant
+            if o['verdict'] == 'unsat':
+                rep.obligation(True)
+                rep.sample({'obligation': desc, 'case': '%s / %s' % (o['kind'], o.get('role')), 'verdict': 'holds for every cell of that kind'}, cap=3)
+                continue
+            if o['verdict'] == 'unknown':
+                rep.obligation(False)
+                rep.fail_inconclusive('solver unknown: ' + desc)
+                continue
+            cell = o.get('witness', {}).get('cell')
+            rp = c20.replay(variant, cell)
+            rep.cov['disagreements_checked'] += 1
+            key = 'print-parse:csv:%s:%s:%s' % (variant, o['kind'], o.get('role'))
+            what = '%s: %s for the cell %r; end to end: import %s, printed table %s, parsed table %s' % (
+                desc, o['kind'], cell, rp.get('how', {}).get('import'), rp.get('how', {}).get('exported_table'), rp.get('how', {}).get('imported_table'))
+            out = rep.counterexample(key, what[:500], {'obligation': {k: v for k, v in o.items() if k != 'pc'}, 'replay': rp}, rp['reproduced'])
+            rep.obligation(out == 'known')
+    rep.cov['functions_encoded'] = list(rep.cov.get('functions_encoded', [])) + ['copy_to_file cell closure (ArrayImpl::get_to_string) and ArrayBuilderImpl::push_str (from MIR)']
+    return n
